@@ -164,6 +164,21 @@ try:
     CONV_FN = get_converter(HSrc, HDst2, recipe=[link_function(data, P[HDst2].z)])
 except Exception as _e:
     NAME_ERRORS.append(("conv_hostile", repr(_e)[:200]))
+# different classes with the same __name__ at two nesting levels: the generated coerce_A_to_B must not shadow the inner coercer
+try:
+    _InA = dataclasses.make_dataclass("A", [("x", int)]); _InB = dataclasses.make_dataclass("B", [("x", int)])
+    _OutA = dataclasses.make_dataclass("A", [("inner", _InA), ("y", int)]); _OutB = dataclasses.make_dataclass("B", [("inner", _InB), ("y", int)])
+    CONV_SAME = get_converter(_OutA, _OutB)
+    _r = Retort()
+    SAME_LD, SAME_DP = _r.get_loader(_OutA), _r.get_dumper(_OutA)
+except Exception as _e:
+    NAME_ERRORS.append(("same_name_nested", repr(_e)[:200]))
+def same_name_nested(x, y):
+    out = CONV_SAME(_OutA(_InA(x), y))
+    if type(out) is not _OutB or type(out.inner) is not _InB or (out.inner.x, out.y) != (x, y): return False
+    obj = SAME_LD({"inner": {"x": x}, "y": y})
+    return type(obj.inner) is _InA and SAME_DP(obj) == {"inner": {"x": x}, "y": y}
+
 def hostile_params(a, b, c, d, e):
     return conv_hostile(HSrc(a), b, c, d, e) == HDst(a, b, c, d, e) and CONV_FN(HSrc(a)) == HDst2(a, a + 1)
 def named_case(ni, v):
@@ -304,6 +319,8 @@ def build(tier, seed):
           family="model / function names with arbitrary characters", bounds="loader, dumper, converter of each named model; symbolic payload")
     mn.ob("names_hostile_params", "a: int, b: int, c: int, d: int, e: int", "return hostile_params(a, b, c, d, e)", timeout=tmo,
           family="converter stub parameters / linked functions named like generated identifiers", bounds="parameters coercer, data, ctx, constructor; function named data; symbolic ints")
+    mn.ob("names_same_name_nested", "x: int, y: int", "return same_name_nested(x, y)", timeout=tmo,
+          family="different classes sharing one __name__ at two nesting levels (converter, loader, dumper)", bounds="symbolic ints")
     mk = Module("c19_kname").pre("from adaptix import Retort\n")
     mk.smt("sanitizer_alphabet", KNAME, timeout=300, family="K-name/1 (z3): sanitizer output alphabet",
            bounds="all code points <= 0x10FFFF; tables regenerated from the live BuiltinNameSanitizer and the running interpreter")
